@@ -358,8 +358,11 @@ itemized :class:`typing.Tuple` type of the form ``typing.Tuple[{typename1},
 
 
 CODE_PEP484585_TUPLE_FIXED_EMPTY = '''
-{{indent_curr}}    # True only if this tuple is empty.
-{{indent_curr}}    not {pith_curr_var_name} and'''
+{{indent_curr}}    # True only if this tuple is empty. Note that this pith is intentionally
+{{indent_curr}}    # *NOT* tested for emptiness by truthiness (e.g., "not pith"), which
+{{indent_curr}}    # would call the __bool__() dunder method of user-defined tuple
+{{indent_curr}}    # subclasses overriding that method.
+{{indent_curr}}    not len({pith_curr_var_name}) and'''
 '''
 :pep:`484`- and :pep:`585`-compliant code snippet prefixing all code
 type-checking the current pith to be empty against an itemized
